@@ -600,6 +600,49 @@ func runC10(c *Ctx) {
 		}
 	}
 
+	// ---------- R12: the stored CNAME is the validated text ----------
+	if vh := c.P.Func("rules", "validateHost"); vh != nil {
+		c.Rule("C10.R12", "WIRE", "a rewrite's NewCNAME is the very text the host validator accepted, in the shorthand and in the full form alike", 2)
+		for _, fn := range scope {
+			r := fn.Signature.Results()
+			if r.Len() != 2 || typeStr(r.At(0).Type()) != "*rules.DNSRewrite" {
+				continue
+			}
+			g := NewGate(c.P)
+			g.Inline = inlineOnly()
+			s := g.Eval(fn)
+			u := g.U
+			var validated []*E
+			for _, ef := range s.Effects {
+				if ef.Kind == "call" && ef.Call.Aux == calleeName(vh) && len(ef.Call.Args) > 0 {
+					validated = append(validated, ef.Call.Args[0])
+				}
+			}
+			for _, ef := range s.Effects {
+				if ef.Kind != "store" || ef.Addr.Op != "faddr" || ef.Addr.Aux != "NewCNAME" {
+					continue
+				}
+				if sv, ok := ef.Val.StrVal(); ok && sv == "" {
+					continue
+				}
+				bad := ""
+				ok := false
+				for _, v := range validated {
+					if v == ef.Val {
+						ok = true
+					}
+				}
+				switch {
+				case len(validated) == 0:
+					bad = "the name is stored without having been validated"
+				case !ok:
+					bad = "the stored name is " + clip(u.Show(ef.Val), 80) + ", the validated one " + clip(u.Show(validated[0]), 80) + ": the shorthand and the full form of one CNAME rewrite no longer store the same text (a trailing dot, a different case), so an exception written in one form does not disable the rewrite written in the other"
+				}
+				c.Check(bad == "", "C10.R12", shortFn(fn)+": NewCNAME = the validated text", ef.Pos, "store of NewCNAME takes the argument of validateHost", bad)
+			}
+		}
+	}
+
 	// ---------- R4 ----------
 	{
 		res := boundsAudit(c, scope)
